@@ -1753,7 +1753,13 @@ func (ex *Exec) boundsObl(p *Path, idx, length string, pos token.Pos) {
 
 func (ex *Exec) nilObl(p *Path, v Value, pos token.Pos) {
 	if ex.boundsOnly && !ex.inContract() && ex.quantFacts == nil {
-		// bounds mode: execution continues past a dereference only if it did not panic
+		// bounds mode: nil-ness of descriptor fields and parameters is protogen's business and is assumed away; but a
+		// pointer that this code itself may have set to nil (an explicit `nil` flows into the value: a callee's
+		// `return nil`, a `var p *T` left unassigned on some path) must be shown non-nil where it is dereferenced
+		if ex.c.SortOf(v.Ty) == "Ref" && carriesNull(v.T) && len(ex.inlineStack) >= 0 {
+			ex.addObl(p, ex.funcKey+"#nopanic:nil@"+ex.siteLabel(pos), "safety", "a pointer that may have been set to nil by this code is not nil where it is dereferenced", explicitNonNull(v.T), pos, "")
+		}
+		// execution continues past a dereference only if it did not panic
 		p.Assume(not(ex.isNilTerm(v)))
 		return
 	}
@@ -1840,4 +1846,43 @@ func realLit(cv constant.Value) string {
 	}
 	f, _ := constant.Float64Val(cv)
 	return fmt.Sprintf("%f", f)
+}
+
+
+// carriesNull: the term can evaluate to the literal nil through an ite branch (not merely compare with it).
+func carriesNull(t string) bool {
+	if !strings.Contains(t, "null") {
+		return false
+	}
+	if t == "null" {
+		return true
+	}
+	if strings.HasPrefix(t, "(ite ") {
+		rest := t[len("(ite "):]
+		c := firstArg(rest)
+		rest = strings.TrimSpace(rest[len(c):])
+		a := firstArg(rest)
+		rest = strings.TrimSpace(rest[len(a):])
+		b := firstArg(rest)
+		return carriesNull(a) || carriesNull(b)
+	}
+	return false
+}
+
+// explicitNonNull: the value does not come from an explicit nil branch (what is read from descriptors, maps, parameters
+// or library results is not questioned).
+func explicitNonNull(t string) string {
+	if t == "null" {
+		return "false"
+	}
+	if strings.HasPrefix(t, "(ite ") && strings.Contains(t, "null") {
+		rest := t[len("(ite "):]
+		c := firstArg(rest)
+		rest = strings.TrimSpace(rest[len(c):])
+		a := firstArg(rest)
+		rest = strings.TrimSpace(rest[len(a):])
+		b := firstArg(rest)
+		return and(implies(c, explicitNonNull(a)), implies(not(c), explicitNonNull(b)))
+	}
+	return "true"
 }
